@@ -8,6 +8,7 @@ from __future__ import annotations
 
 import ast
 import builtins
+import collections as _collections
 import importlib.abc
 import importlib.machinery
 import importlib.util
@@ -249,6 +250,41 @@ class SDefaultDict(SDict):
         v = self.default_factory()
         self._kv.append((key, v))
         return v
+
+
+class SCounter(SDict):
+    """collections.Counter over an association list (symbolic keys allowed)"""
+
+    def __init__(self, iterable=None, **k):
+        SDict.__init__(self)
+        if iterable is not None:
+            self.update(iterable)
+        for kk, vv in k.items():
+            self[kk] = self[kk] + vv
+
+    def __missing__(self, key):
+        return 0
+
+    def update(self, iterable=None, **k):
+        if iterable is not None:
+            if hasattr(iterable, "keys"):
+                for kk in iterable.keys():
+                    self[kk] = self[kk] + iterable[kk]
+            else:
+                for x in iterable:
+                    self[x] = self[x] + 1
+
+    def most_common(self, n=None):
+        items = _real_sorted(self._kv, key=lambda kv: -kv[1])
+        return items if n is None else items[:n]
+
+    def elements(self):
+        for kk, vv in self._kv:
+            for _ in range(vv):
+                yield kk
+
+    def total(self):
+        return sum(v for _, v in self._kv)
 
 
 class SSet(_real_set, metaclass=_M):
@@ -705,6 +741,8 @@ def sx_call(f, *a, **k):
         if alt is None:
             raise Unsupported("re.Pattern.%s on a symbolic string" % getattr(f, "__name__", "?"))
         return alt(*a, **k)
+    if f is _collections.Counter and _deep_sym_in(a):
+        return SCounter(*a, **k)
     if f is print and _deep_sym_in(a):
         return None  # console output is not part of any kernel
     if f is _real_str or f is str:
@@ -1204,6 +1242,8 @@ class Loader(importlib.abc.Loader):
 
         if d.get("defaultdict") is collections.defaultdict:
             d["defaultdict"] = SDefaultDict
+        if d.get("Counter") is collections.Counter:
+            d["Counter"] = SCounter
 
     def get_filename(self, name):
         return self.path
